@@ -83,35 +83,73 @@ def _uniq_events(events, kind, key=None):
 # --------------------------------------------------------------------------- R-ZERO
 
 
+def zero_at_graph_build(ctx):
+    """abstractly run the public reading entry points with the readers' (already computed) results plugged in, and look
+    at what reaches graph_from_molecule: {entry name: set of sink keys that may still be 0}"""
+    if "zero_at_build" in ctx.cache:
+        return ctx.cache["zero_at_build"]
+    gfm = ctx.repo.func("tucan.graph_utils.graph_from_molecule")
+    out = {}
+    for key in ("read_text", "read_file"):
+        ent = entry(ctx, key)
+        I = HeapInterp(ctx.repo)
+        for ver in ("V3000", "V2000"):
+            fi, _, rec, bonds = analyse_reader(ctx, ver)
+            amap = Obj("map")
+            amap.elem = rec
+            tup = Obj("tuple")
+            tup.items = [amap, bonds]
+            I.overrides[fi.fq] = tup
+        I.overrides[gfm.fq] = Obj("unknown")
+        I.observed[gfm.fq] = []
+        I.call(ent, [string()])
+        dirty = set()
+        for args, _ in I.observed[gfm.fq]:
+            a = args[0] if args else None
+            r = a.elem if a is not None and a.kind == "map" else None
+            if r is not None and r.kind == "rec":
+                dirty |= {k for k in SINKS if ZERO in taint(r.fields.get(k))}
+        if not I.observed[gfm.fq]:
+            raise AnalysisError(f"R-ZERO: {ent.qualname} does not reach graph_from_molecule in the abstract run")
+        out[key] = (ent, dirty)
+    ctx.cache["zero_at_build"] = out
+    return out
+
+
 @rule("R-ZERO")
 def r_zero(ctx) -> RuleResult:
-    res = RuleResult("R-ZERO", "no possibly-zero number read from the file reaches the chg / mass / rad entry of an atom record returned by a reader (explicit defaults mean 'absent')")
+    res = RuleResult("R-ZERO", "no possibly-zero number read from the file reaches the chg / mass / rad entry of an atom record that is turned into a graph (explicit defaults mean 'absent'), on every public reading path")
+    reader_dirty = {}
+    for ver in ("V3000", "V2000"):
+        fi, I, rec, _ = analyse_reader(ctx, ver)
+        reader_dirty[ver] = {k for k in SINKS if ZERO in taint(rec.fields.get(k))}
+    at_build = zero_at_graph_build(ctx) if any(reader_dirty.values()) else {}
+    later_clean = bool(at_build) and all(not d for _, d in at_build.values())
     for ver in ("V3000", "V2000"):
         fi, I, rec, _ = analyse_reader(ctx, ver)
         for k in SINKS:
             fl = taint(rec.fields.get(k))
-            bad = ZERO in fl
-            res.inst(fi.fq, f"{ver} atom record entry `{k}`", "fail" if bad else "ok", detail=f"flags {sorted(fl)}")
+            bad = ZERO in fl and not later_clean
+            res.inst(fi.fq, f"{ver} atom record entry `{k}`", "fail" if bad else "ok",
+                     detail=f"flags {sorted(fl)}" + ("; zero values are dropped later, before the graph is built, on every public path" if ZERO in fl and later_clean else ""))
             if bad:
+                paths = [e.qualname for e, d in at_build.values() if k in d]
                 evs = [e for e in _uniq_events(I.events, "store", k) if ZERO in e.flags][:1]
-                done = set()
                 for ev in evs or [None]:
                     node = ev.node if ev else fi.node
                     efi = ev.fi if ev else fi
-                    kk = (efi.fq, norm(node))
-                    if kk in done:
-                        continue
-                    done.add(kk)
                     kw = KW_OF[k] if ver == "V3000" else V2000_PROP_OF[k]
                     res.fail(Finding("R-ZERO", efi.module.rel, efi.qualname, f"{k} <- {short(node, 90)}",
-                                     f"{ver}: an explicit default ({kw} value 0) is stored as `{k}: 0`; it must mean the same as omitting it "
+                                     f"{ver}: an explicit default ({kw} value 0) is stored as `{k}: 0` and reaches the graph through {paths or 'the readers'}; it must mean the same as omitting it "
                                      f"(the serializer would write `{k}=0`, which the grammar rejects, and the invariant code differs from the omitted form)",
                                      line=getattr(node, "lineno", None),
-                                     path=[f"int() of file text", f"{efi.qualname}", f"atom record[{k}]"]))
+                                     path=["int() of file text", f"{efi.qualname}", f"atom record[{k}]"] + ([f"graph_from_molecule via {p}" for p in paths])))
         res.notes += [f"{ver}: {n}" for n in I.notes[:5]]
         if I.unsummarised:
             res.notes.append(f"{ver}: unsummarised calls treated as pure: {sorted(I.unsummarised)}")
-    res.counts = {"readers": 2, "sink_keys": len(SINKS)}
+    for key, (ent, d) in at_build.items():
+        res.inst(ent.fq, f"records handed to graph_from_molecule on the `{ent.name}` path", "ok" if not d else "fail", detail=f"possibly-zero entries: {sorted(d) or 'none'}")
+    res.counts = {"readers": 2, "sink_keys": len(SINKS), "public_paths": len(at_build)}
     res.trusted = ["int()/float() of file text may return 0; constants of MOLFILE_V2000_CHARGES and detect_hydrogen_isotopes are evaluated"]
     return res
 
